@@ -2,7 +2,7 @@
    what they program, and the mode-changing ones. *)
 From Coq Require Import ZArith NArith List Bool Lia Arith.
 From LoraV Require Import Base.Bytes Gen.PhyTables Model.PhyCore Model.Sx126x Model.Toa Model.LoraDrv Model.LoraKinds
-  Spec.ChipMon Proofs.PhyHoare Proofs.PlainProgs.
+  Spec.ChipMon Proofs.PhyHoare Proofs.PlainProgs Proofs.KindSpec Proofs.LoraInv.
 Import ListNotations.
 Local Open Scope nat_scope.
 
@@ -61,4 +61,432 @@ Section K126.
   Proof. cbn [k_rxpayload kind126]. plain. Qed.
   Lemma status_plain g : plainP x plain_err [] [] (k_status (kind126 g)).
   Proof. cbn [k_status kind126]. plain. Qed.
+
+  (* ---- single transactions *)
+  Lemma segs_match_w1 b ts got : segs_match [W b] ts got -> ts = [TW b] /\ got = [].
+  Proof. intros H. inversion H as [|b0 r0 ts0 got0 H1|]; subst. inversion H1; subst. split; reflexivity. Qed.
+  Lemma ev_w1 m b : b <> [] -> mon_event x m (TSpi [TW b]) = spi126 x m b [].
+  Proof. intros NE. cbn [mon_event seg_written seg_read x_fam x126]. rewrite app_nil_r. destruct b; [contradiction|reflexivity]. Qed.
+  Lemma okm_with_mode m c : okm m -> okm (with_mode m c).
+  Proof. intros H; exact H. Qed.
+  Lemma le_refl m : le_valid m m.
+  Proof. intros i Hi; exact Hi. Qed.
+  Lemma le_with_mode m c : le_valid m (with_mode m c).
+  Proof. intros i Hi; exact Hi. Qed.
+  Lemma pin_spi A : pin_err (A := A) (inr ESpi).
+  Proof. intros e E. injection E as <-. left; reflexivity. Qed.
+  Lemma pin_busy A : pin_err (A := A) (inr EBusy).
+  Proof. intros e E. injection E as <-. right; reflexivity. Qed.
+  Lemma pin_okr A (a : A) : pin_err (inl a).
+  Proof. intros e E. discriminate E. Qed.
+  Lemma fam126 : x_fam x = K126.
+  Proof. reflexivity. Qed.
+
+  Lemma standby_ok g : forall (Q : unit + rerr -> drv -> mon -> Prop) d m, okm m -> (x_fam x = K126 -> ready m) ->
+      (forall r m', okm m' -> le_valid m m' -> (is_ok r -> cm m' = CStby) -> (cm m' = cm m \/ cm m' = CStby) -> pin_err r -> Q r d m') ->
+      wp x (k_standby (kind126 g)) Q d m.
+  Proof.
+    intros Q d m O R HQ. specialize (R fam126). cbn [k_standby kind126]. unfold set_standby_126, spi_write, act1, iv. cbn [bind wp].
+    split; [apply HQ; [exact O|apply le_refl|intros []|left; reflexivity|apply pin_spi]|].
+    intros ts got Hm. apply segs_match_w1 in Hm. destruct Hm as [-> ->]. rewrite ev_w1 by discriminate. rewrite spi126_ready by exact R.
+    change (spi126_cmd x m [s6_OpCode_SetStandby; s6_StandbyMode_RC] []) with (with_mode m CStby).
+    split; [apply HQ; [exact O|apply le_with_mode|intros []|right; reflexivity|apply pin_busy]|].
+    apply HQ; [exact O|apply le_with_mode|reflexivity|right; reflexivity|apply pin_okr].
+  Qed.
+
+  Lemma sleep_ok g : forall warm (Q : unit + rerr -> drv -> mon -> Prop) d m, okm m -> (x_fam x = K126 -> ready m) ->
+      (forall r m', (is_ok r -> okm m' /\ cm m' = CSleep /\ (warm = true -> le_valid m m')) -> (~ is_ok r -> m' = m) -> pin_err r -> Q r d m') ->
+      wp x (k_sleep (kind126 g) warm) Q d m.
+  Proof.
+    intros warm Q d m O R HQ. specialize (R fam126). cbn [k_sleep kind126]. unfold set_sleep_126, spi_write, act1, iv, delay. cbn [bind wp].
+    split; [apply HQ; [intros []|reflexivity|apply pin_spi]|].
+    intros ts got Hm. apply segs_match_w1 in Hm. destruct Hm as [-> ->]. rewrite ev_w1 by discriminate. rewrite spi126_ready by exact R.
+    apply HQ; [|intros H; exfalso; apply H; exact I|apply pin_okr]. intros _. destruct warm.
+    - change (spi126_cmd x m [s6_OpCode_SetSleep; 4%N] []) with (with_mode m CSleep). split; [exact O|]. split; [reflexivity|]. intros _. apply le_with_mode.
+    - change (spi126_cmd x m [s6_OpCode_SetSleep; 0%N] []) with (with_mode (with_valid m none_valid) CSleep). split; [exact O|]. split; [reflexivity|]. intros H; discriminate H.
+  Qed.
+
+  Lemma reset_ok g : forall (Q : unit + rerr -> drv -> mon -> Prop) d m, okm m ->
+      (forall r m', okm m' -> (cm m' = CStby \/ (cm m' = CSleep /\ x_fam x = K127)) -> pin_err r -> Q r d m') ->
+      wp x (k_reset (kind126 g)) Q d m.
+  Proof.
+    intros Q d m O HQ. cbn [k_reset kind126]. unfold iv, act1. cbn [wp mon_event]. apply HQ; [exact O|left; reflexivity|apply pin_okr].
+  Qed.
+
+  Lemma getstatus_effect m : okm m ->
+    let m' := spi126 x m [s6_OpCode_GetStatus; 0%N] [] in
+    okm m' /\ le_valid m m' /\ ready m' /\ (cm m' = cm m \/ (cm m = CSleep /\ cm m' = CStby)).
+  Proof.
+    intros O. cbv zeta.
+    assert (AW : forall m0, okm m0 -> cm m0 <> CSleep -> (cm m0 = CDuty -> awake m0 = true) -> spi126 x m0 [s6_OpCode_GetStatus; 0%N] [] = m0).
+    { intros m0 O0 N0 A0. rewrite spi126_ready by (split; assumption). reflexivity. }
+    destruct (cm m) eqn:E.
+    - (* asleep: woken *)
+      assert (EQ : spi126 x m [s6_OpCode_GetStatus; 0%N] [] = with_mode m CStby) by (unfold spi126; rewrite E; reflexivity).
+      rewrite EQ. split; [exact O|]. split; [apply le_with_mode|]. split; [split; cbn; discriminate|]. right. split; reflexivity.
+    - rewrite AW; [|exact O|rewrite E; discriminate|rewrite E; discriminate]. split; [exact O|]. split; [apply le_refl|]. split; [split; [rewrite E; discriminate|rewrite E; intros H; discriminate H]|left; congruence].
+    - rewrite AW; [|exact O|rewrite E; discriminate|rewrite E; discriminate]. split; [exact O|]. split; [apply le_refl|]. split; [split; [rewrite E; discriminate|rewrite E; intros H; discriminate H]|left; congruence].
+    - rewrite AW; [|exact O|rewrite E; discriminate|rewrite E; discriminate]. split; [exact O|]. split; [apply le_refl|]. split; [split; [rewrite E; discriminate|rewrite E; intros H; discriminate H]|left; congruence].
+    - rewrite AW; [|exact O|rewrite E; discriminate|rewrite E; discriminate]. split; [exact O|]. split; [apply le_refl|]. split; [split; [rewrite E; discriminate|rewrite E; intros H; discriminate H]|left; congruence].
+    - rewrite AW; [|exact O|rewrite E; discriminate|rewrite E; discriminate]. split; [exact O|]. split; [apply le_refl|]. split; [split; [rewrite E; discriminate|rewrite E; intros H; discriminate H]|left; congruence].
+    - (* duty-cycled reception *)
+      destruct (awake m) eqn:EA.
+      + rewrite AW; [|exact O|rewrite E; discriminate|intros _; exact EA]. split; [exact O|]. split; [apply le_refl|]. split; [split; [rewrite E; discriminate|intros _; exact EA]|left; congruence].
+      + assert (EQ : spi126 x m [s6_OpCode_GetStatus; 0%N] [] = with_awake m true) by (unfold spi126; rewrite E, EA; reflexivity).
+        rewrite EQ. split; [exact O|]. split; [intros i Hi; exact Hi|]. split; [split; cbn; [rewrite E; discriminate|reflexivity]|left; cbn; congruence].
+    - rewrite AW; [|exact O|rewrite E; discriminate|rewrite E; discriminate]. split; [exact O|]. split; [apply le_refl|]. split; [split; [rewrite E; discriminate|rewrite E; intros H; discriminate H]|left; congruence].
+  Qed.
+
+  Lemma ensure_ok g : forall dm (Q : unit + rerr -> drv -> mon -> Prop) d m, okm m ->
+      (cm m = CSleep -> dm = MSleep \/ x_fam x = K127) -> (cm m = CDuty -> awake m = false -> is_duty dm = true) ->
+      (forall r m', okm m' -> le_valid m m' -> (cm m' = cm m \/ (cm m = CSleep /\ cm m' = CStby)) ->
+                    (is_ok r -> x_fam x = K126 \/ ready m -> ready m') -> pin_err r -> Q r d m') ->
+      wp x (k_ensure_ready (kind126 g) dm) Q d m.
+  Proof.
+    intros dm Q d m O H1 H2 HQ. cbn [k_ensure_ready kind126]. unfold ensure_ready_126.
+    destruct (match dm with MSleep | MRx (RxDuty _ _) => true | _ => false end) eqn:SD.
+    - unfold spi_write, act1, iv. cbn [wp].
+      split; [apply HQ; [exact O|apply le_refl|left; reflexivity|intros []|apply pin_spi]|].
+      intros ts got Hm. apply segs_match_w1 in Hm. destruct Hm as [-> ->]. rewrite ev_w1 by discriminate.
+      destruct (getstatus_effect m O) as [O' [L' [R' M']]].
+      split; [apply HQ; [exact O'|exact L'|exact M'|intros []|apply pin_busy]|].
+      apply HQ; [exact O'|exact L'|exact M'|intros _ _; exact R'|apply pin_okr].
+    - unfold iv, act1. cbn [wp].
+      split; [apply HQ; [exact O|apply le_refl|left; reflexivity|intros []|apply pin_busy]|].
+      change (mon_event x m (TIv IvBusy)) with m.
+      apply HQ; [exact O|apply le_refl|left; reflexivity| |apply pin_okr]. intros _ _. split.
+      + intros E. destruct (H1 E) as [-> |F]; [discriminate SD|discriminate F].
+      + intros E. destruct (awake m) eqn:EA; [reflexivity|]. specialize (H2 E eq_refl). destruct dm as [| | |[n| |a b]| |]; try discriminate H2. discriminate SD.
+  Qed.
+
+  Lemma tx_ok g : forall (Q : unit + rerr -> drv -> mon -> Prop) d m, okm m -> ready m -> forallb (valid m) (need x StTx) = true ->
+      (forall r m', okm m' -> le_valid m m' -> (is_ok r -> cm m' = CTx) -> (cm m' = cm m \/ cm m' = CTx) -> pin_err r -> Q r d m') ->
+      wp x (k_tx (kind126 g)) Q d m.
+  Proof.
+    intros Q d m O R V HQ. cbn [k_tx kind126]. unfold do_tx_126, spi_write, act1, iv. cbn [bind wp]. change (mon_event x m (TIv IvSwTx)) with m.
+    split; [apply HQ; [exact O|apply le_refl|intros []|left; reflexivity|apply pin_spi]|].
+    intros ts got Hm. apply segs_match_w1 in Hm. destruct Hm as [-> ->]. rewrite ev_w1 by discriminate. rewrite spi126_ready by exact R.
+    assert (S : start x m StTx = m) by (unfold start; rewrite V; reflexivity).
+    change (mon_event x m (TIv IvSwTx)) with m.
+    change (spi126_cmd x m [s6_OpCode_SetTx; 0%N; 0%N; 0%N] []) with (with_mode (start x m StTx) CTx). rewrite S. unfold act1. cbn [wp].
+    split; [apply HQ; [exact O|apply le_with_mode|intros []|right; reflexivity|apply pin_busy]|].
+    apply HQ; [exact O|apply le_with_mode|reflexivity|right; reflexivity|apply pin_okr].
+  Qed.
+
+  (* ---- bit facts: a flag the driver saw set is a flag the chip-side monitor sees set *)
+  Lemma is_set_land b f c k : is_set b f = true -> N.testbit b k = true -> N.testbit c k = true -> (N.land f c =? 0)%N = false.
+  Proof.
+    unfold is_set. intros H Hb Hc. apply N.eqb_eq in H. apply N.eqb_neq. intros Z.
+    assert (T : N.testbit (N.land f c) k = true).
+    { rewrite N.land_spec, Hc, andb_true_r. rewrite <- H in Hb. rewrite N.land_spec in Hb. apply andb_true_iff in Hb. apply Hb. }
+    rewrite Z in T. rewrite N.bits_0 in T. discriminate T.
+  Qed.
+
+  (* ---- starting a reception *)
+  Lemma iv_plain c : c <> IvReset -> c <> IvIrq -> plainP x pin_only [] [] (iv c).
+  Proof. intros N1 N2. unfold iv, act1. apply PIv; [exact N1|exact N2|intros r; apply PRet; intros i []|intros _; apply PFail; right; reflexivity]. Qed.
+  Lemma w_plain_pin bytes : bytes <> [] -> plain126 bytes = true -> plainP x pin_only [] [] (spi_write bytes false).
+  Proof.
+    intros NE P. unfold spi_write, act1, iv. apply PSpi; [cbn [seg_w]; rewrite app_nil_r; exact NE|cbn [pc x_fam x126 seg_w]; rewrite app_nil_r; exact P| |apply PFail; left; reflexivity].
+    intros r. apply PIv; [discriminate|discriminate|intros r0; apply PRet; intros i []|intros _; apply PFail; right; reflexivity].
+  Qed.
+  Lemma symb_plain n : plainP x pin_only [] [] (set_symb_timeout_126 n).
+  Proof. plain. Qed.
+  Lemma regw_plain reg v : plain126 [s6_OpCode_WriteRegister; hi8 reg; lo8 reg; v] = true -> plainP x pin_only [] [] (reg_w8 reg v).
+  Proof. intros P. unfold reg_w8. apply w_plain_pin; [discriminate|exact P]. Qed.
+
+  Lemma final_start (bytes : list N) (k : startkind) (target : cmode) (aw : bool) (Q : unit + rerr -> drv -> mon -> Prop) d m0 m :
+    bytes <> [] -> okm m -> ready m -> prog_le m0 m -> forallb (valid m) (need x k) = true ->
+    (forall mm, start x mm k = mm -> spi126_cmd x mm bytes [] = (if aw then with_awake (with_mode mm target) true else with_mode mm target)) ->
+    (forall r m', okm m' -> le_valid m0 m' -> (is_ok r -> cm m' = target) -> (cm m' = cm m0 \/ cm m' = target) -> pin_err r -> Q r d m') ->
+    wp x (spi_write bytes false) Q d m.
+  Proof.
+    intros NE O R L V EQ HQ. destruct L as [L1 [L2 [L3 L4]]]. unfold spi_write, act1, iv. cbn [wp].
+    split; [apply HQ; [exact O|exact L3|intros []|left; exact L1|apply pin_spi]|].
+    intros ts got Hm. apply segs_match_w1 in Hm. destruct Hm as [-> ->]. rewrite ev_w1 by exact NE. rewrite spi126_ready by exact R.
+    assert (S : start x m k = m) by (unfold start; rewrite V; reflexivity). rewrite (EQ m S).
+    destruct aw.
+    - split; [apply HQ; [exact O|exact L3|intros []|right; reflexivity|apply pin_busy]|].
+      apply HQ; [exact O|exact L3|reflexivity|right; reflexivity|apply pin_okr].
+    - split; [apply HQ; [exact O|exact L3|intros []|right; reflexivity|apply pin_busy]|].
+      apply HQ; [exact O|exact L3|reflexivity|right; reflexivity|apply pin_okr].
+  Qed.
+
+  Lemma rx_ok g : forall rm (Q : unit + rerr -> drv -> mon -> Prop) d m, okm m -> ready m -> forallb (valid m) (need x StRx) = true ->
+      (forall r m', okm m' -> le_valid m m' -> (is_ok r -> cm m' = rx_target rm) -> (cm m' = cm m \/ cm m' = rx_target rm) ->
+                    (x_fam x = K127 -> cm m' = CDuty -> cm m = CDuty) ->
+                    (forall e, r = inr e -> e = ESpi \/ e = EBusy \/ (e = EDutyCycleUnsupported /\ cm m' = cm m /\ x_fam x = K127 /\ is_duty (MRx rm) = true)) -> Q r d m') ->
+      wp x (k_rx (kind126 g) rm) Q d m.
+  Proof.
+    intros rm Q d m O R V HQ. cbn [k_rx kind126]. unfold do_rx_126.
+    assert (FAILQ : forall e m', prog_le m m' -> pin_only e -> Q (inr e) d m').
+    { intros e m' [L1 [L2 [L3 L4]]] Pe. apply HQ; [exact L4|exact L3|intros []|left; exact L1|intros F; discriminate F|].
+      intros e0 E0. injection E0 as <-. destruct Pe as [-> | ->]; [left|right; left]; reflexivity. }
+    apply seq_plain with (E := pin_only) (want := []); [apply plain_spec_of, iv_plain; discriminate|exact O|exact R| |exact FAILQ].
+    intros [] m1 L1 _. apply seq_plain with (E := pin_only) (want := []); [apply plain_spec_of, w_plain_pin; [discriminate|reflexivity]|apply L1|eapply prog_le_ready; eassumption| |].
+    2:{ intros e m' L Pe. apply FAILQ; [eapply prog_le_trans; eassumption|exact Pe]. }
+    intros [] m2 L2 _. pose proof (prog_le_trans _ _ _ L1 L2) as L12.
+    apply seq_plain with (E := pin_only) (want := []); [apply plain_spec_of, symb_plain|apply L12|eapply prog_le_ready; eassumption| |].
+    2:{ intros e m' L Pe. apply FAILQ; [eapply prog_le_trans; eassumption|exact Pe]. }
+    intros [] m3 L3 _. pose proof (prog_le_trans _ _ _ L12 L3) as L13.
+    apply seq_plain with (E := pin_only) (want := []); [apply plain_spec_of, regw_plain; reflexivity|apply L13|eapply prog_le_ready; eassumption| |].
+    2:{ intros e m' L Pe. apply FAILQ; [eapply prog_le_trans; eassumption|exact Pe]. }
+    intros [] m4 L4 _. pose proof (prog_le_trans _ _ _ L13 L4) as L14.
+    assert (V4 : forallb (valid m4) (need x StRx) = true) by (eapply forallb_le; [apply L14|exact V]).
+    assert (HQ' : forall r m', okm m' -> le_valid m m' -> (is_ok r -> cm m' = rx_target rm) -> (cm m' = cm m \/ cm m' = rx_target rm) -> pin_err r -> Q r d m').
+    { intros r m' O' L' S' M' P'. apply HQ; try assumption; [intros F; discriminate F|]. intros e E. destruct (P' e E) as [-> | ->]; [left|right; left]; reflexivity. }
+    destruct rm as [n| |a b].
+    - eapply (final_start _ StRx CRx1 false); [discriminate|apply L14|eapply prog_le_ready; eassumption|exact L14|exact V4| |exact HQ'].
+      intros mm S. unfold spi126_cmd. cbn [nthN nth]. change (s6_OpCode_SetRx =? 132)%N with false. change (s6_OpCode_SetRx =? 128)%N with false.
+      change (s6_OpCode_SetRx =? 193)%N with false. change (s6_OpCode_SetRx =? 131)%N with false. change (s6_OpCode_SetRx =? 209)%N with false.
+      change (s6_OpCode_SetRx =? 130)%N with true. cbn [orb]. rewrite S. reflexivity.
+    - eapply (final_start _ StRx CRxc false); [discriminate|apply L14|eapply prog_le_ready; eassumption|exact L14|exact V4| |exact HQ'].
+      intros mm S. unfold spi126_cmd. cbn [nthN nth]. change (s6_OpCode_SetRx =? 132)%N with false. change (s6_OpCode_SetRx =? 128)%N with false.
+      change (s6_OpCode_SetRx =? 193)%N with false. change (s6_OpCode_SetRx =? 131)%N with false. change (s6_OpCode_SetRx =? 209)%N with false.
+      change (s6_OpCode_SetRx =? 130)%N with true. cbn [orb]. rewrite S. reflexivity.
+    - eapply (final_start _ StRx CDuty true); [discriminate|apply L14|eapply prog_le_ready; eassumption|exact L14|exact V4| |exact HQ'].
+      intros mm S. unfold spi126_cmd. cbn [nthN nth]. change (s6_OpCode_SetRxDutyCycle =? 132)%N with false. change (s6_OpCode_SetRxDutyCycle =? 128)%N with false.
+      change (s6_OpCode_SetRxDutyCycle =? 193)%N with false. change (s6_OpCode_SetRxDutyCycle =? 131)%N with false. change (s6_OpCode_SetRxDutyCycle =? 209)%N with false.
+      change (s6_OpCode_SetRxDutyCycle =? 130)%N with false. change (s6_OpCode_SetRxDutyCycle =? 148)%N with true. cbn [orb]. rewrite S. reflexivity.
+  Qed.
+
+  (* ---- CAD *)
+  Definition it_cad126 : list item := [IPktType; ISync; IBases; IMod; IIrq; IFreq] ++ (if dc then [IRegulator] else []) ++ (if tc then [ITcxo] else []).
+  Lemma sf_code_some sf : (sf < 8)%N -> exists s, code s6_sf_codes sf = Some s.
+  Proof.
+    intros H. assert (C : (sf = 0 \/ sf = 1 \/ sf = 2 \/ sf = 3 \/ sf = 4 \/ sf = 5 \/ sf = 6 \/ sf = 7)%N) by lia.
+    destruct C as [-> |[-> |[-> |[-> |[-> |[-> |[-> | ->]]]]]]]; eexists; reflexivity.
+  Qed.
+  Lemma cadparams_plain s : plainP x pin_only [ICadParams] [] (spi_write [s6_OpCode_SetCADParams; s6_CADSymbols_8; u8 (s + 13); 10%N; 0%N; 0%N; 0%N; 0%N] false).
+  Proof. plain. Qed.
+
+  Lemma cad_ok g : forall md (Q : unit + rerr -> drv -> mon -> Prop) d m, (md_sf md < 8)%N -> okm m -> ready m -> valid_all m it_cad126 ->
+      (forall r m', okm m' -> le_valid m m' -> (is_ok r -> cm m' = CCad) -> (cm m' = cm m \/ cm m' = CCad) -> pin_err r -> Q r d m') ->
+      wp x (k_cad (kind126 g) md) Q d m.
+  Proof.
+    intros md Q d m SF O R V HQ. cbn [k_cad kind126]. unfold do_cad_126. destruct (sf_code_some _ SF) as [s Hs]. rewrite Hs.
+    assert (FAILQ : forall e m', prog_le m m' -> pin_only e -> Q (inr e) d m').
+    { intros e m' [L1 [L2 [L3 L4]]] Pe. apply HQ; [exact L4|exact L3|intros []|left; exact L1|]. intros e0 E0. injection E0 as <-. exact Pe. }
+    apply seq_plain with (E := pin_only) (want := []); [apply plain_spec_of, iv_plain; discriminate|exact O|exact R| |exact FAILQ].
+    intros [] m1 L1 _. apply seq_plain with (E := pin_only) (want := []); [apply plain_spec_of, regw_plain; destruct (g_rx_boost g); reflexivity|apply L1|eapply prog_le_ready; eassumption| |].
+    2:{ intros e m' L Pe. apply FAILQ; [eapply prog_le_trans; eassumption|exact Pe]. }
+    intros [] m2 L2 _. pose proof (prog_le_trans _ _ _ L1 L2) as L12.
+    apply seq_plain with (E := pin_only) (want := [ICadParams]); [apply plain_spec_of, cadparams_plain|apply L12|eapply prog_le_ready; eassumption| |].
+    2:{ intros e m' L Pe. apply FAILQ; [eapply prog_le_trans; eassumption|exact Pe]. }
+    intros [] m3 L3 V3. pose proof (prog_le_trans _ _ _ L12 L3) as L13.
+    eapply (final_start _ StCad CCad false); [discriminate|apply L13|eapply prog_le_ready; eassumption|exact L13| | |exact HQ].
+    - apply forallb_forall. intros i Hi. assert (VV : valid_all m3 it_cad126) by (eapply valid_all_le; [apply L13|exact V]).
+      unfold need in Hi. cbn [x_fam x126 x_dcdc x_tcxo] in Hi. unfold it_cad126 in VV.
+      apply in_app_or in Hi. destruct Hi as [Hi|Hi]; [apply in_app_or in Hi; destruct Hi as [Hi|Hi]|].
+      + cbn [In] in Hi. destruct Hi as [<-|[<-|[<-|[<-|[<-|[<-|[<-|[]]]]]]]]; try (apply VV; cbn; tauto). apply V3. left; reflexivity.
+      + apply VV. apply in_or_app. right. apply in_or_app. left. exact Hi.
+      + apply VV. apply in_or_app. right. apply in_or_app. right. exact Hi.
+    - intros mm S. unfold spi126_cmd. cbn [nthN nth]. change (s6_OpCode_SetCAD =? 132)%N with false. change (s6_OpCode_SetCAD =? 128)%N with false.
+      change (s6_OpCode_SetCAD =? 193)%N with false. change (s6_OpCode_SetCAD =? 131)%N with false. change (s6_OpCode_SetCAD =? 209)%N with false.
+      change (s6_OpCode_SetCAD =? 130)%N with false. change (s6_OpCode_SetCAD =? 148)%N with false. change (s6_OpCode_SetCAD =? 197)%N with true. cbn [orb]. rewrite S. reflexivity.
+  Qed.
+
+  (* ---- init_lora: regulator, RF switch, TCXO, then the packet type (which resets the modem parameters), sync word, buffer bases, retention *)
+  Definition it_init126 : list item := [IPktType; ISync; IBases] ++ (if dc then [IRegulator] else []) ++ (if tc then [ITcxo] else []).
+  Lemma regulator_plain g : g_dcdc g = dc ->
+    plainP x plain_err (if dc then [IRegulator] else []) [] (if g_dcdc g then spi_write [s6_OpCode_SetRegulatorMode; s6_RegulatorMode_UseDCDC] false else Ret tt).
+  Proof. intros ->. destruct (g_dcdc g); plain. Qed.
+  Lemma dio2_plain g : plainP x plain_err [] [] (if g_dio2_rfswitch g then spi_write [s6_OpCode_SetDIO2AsRfSwitchCtrl; 1%N] false else Ret tt).
+  Proof. destruct (g_dio2_rfswitch g); plain. Qed.
+  Lemma tcxo_plain g : tc = (match g_tcxo g with Some _ => true | None => false end) ->
+    plainP x plain_err (if tc then [ITcxo] else []) []
+      (match g_tcxo g with
+       | Some v =>
+         _ <- spi_read_status [s6_OpCode_ClearDeviceErrors] 2 ;;
+         let timeout := (s6c_brd_tcxo_wakeup_time * 64)%N in
+         spi_write [s6_OpCode_SetTCXOMode; N.land v 7; t1 timeout; t2 timeout; t3 timeout] false ;;;
+         spi_write [s6_OpCode_Calibrate; 0x7F%N] false ;;;
+         iv IvBusy
+       | None => Ret tt end).
+  Proof. intros ->. destruct (g_tcxo g); plain. Qed.
+  Lemma syncw_plain sw : plainP x plain_err [ISync] [] (sync_word_write sw).
+  Proof. plain. Qed.
+  Lemma bases_plain : plainP x plain_err [IBases] [] (set_buffer_base 0 0).
+  Proof. plain. Qed.
+  Lemma retention_plain reg : plainP x plain_err [] [] (add_retention reg).
+  Proof. plain. Qed.
+
+  Lemma init_ok g sw : g_dcdc g = dc -> tc = (match g_tcxo g with Some _ => true | None => false end) ->
+    weak_spec x it_init126 (k_init (kind126 g) sw).
+  Proof.
+    intros HD HT Q d m O R HQ. cbn [k_init kind126]. unfold init_lora_126.
+    assert (FAILQ : forall e m', prog_le m m' -> plain_err e -> Q (inr e) d m').
+    { intros e m' [L1 [L2 [L3 L4]]] Pe. apply HQ; [exact L1|exact L2|exact L4|intros []|]. intros e0 E0. injection E0 as <-. exact Pe. }
+    apply seq_plain with (E := plain_err) (want := if dc then [IRegulator] else []); [apply plain_spec_of, regulator_plain, HD|exact O|exact R| |exact FAILQ].
+    intros [] m1 L1 V1. apply seq_plain with (E := plain_err) (want := []); [apply plain_spec_of, dio2_plain|apply L1|eapply prog_le_ready; eassumption| |].
+    2:{ intros e m' L Pe. apply FAILQ; [eapply prog_le_trans; eassumption|exact Pe]. }
+    intros [] m2 L2 _. pose proof (prog_le_trans _ _ _ L1 L2) as L12.
+    apply seq_plain with (E := plain_err) (want := if tc then [ITcxo] else []); [apply plain_spec_of, tcxo_plain, HT|apply L12|eapply prog_le_ready; eassumption| |].
+    2:{ intros e m' L Pe. apply FAILQ; [eapply prog_le_trans; eassumption|exact Pe]. }
+    intros [] m3 L3 V3. pose proof (prog_le_trans _ _ _ L12 L3) as L13.
+    assert (R3 : ready m3) by (eapply prog_le_ready; eassumption). assert (O3 : okm m3) by apply L13.
+    (* SetPacketType *)
+    apply wp_bind. unfold spi_write at 1, act1, iv. cbn [wp].
+    split; [apply FAILQ; [exact L13|repeat split; discriminate]|].
+    intros ts got Hm. apply segs_match_w1 in Hm. destruct Hm as [-> ->]. rewrite ev_w1 by discriminate. rewrite spi126_ready by exact R3.
+    set (m4 := spi126_cmd x m3 [s6_OpCode_SetPacketType; s6_PacketType_LoRa] []).
+    assert (E4 : m4 = with_valid m3 (upd (upd (upd (valid m3) IMod false) IPkt false) IPktType true)) by reflexivity.
+    assert (C4 : cm m4 = cm m /\ awake m4 = awake m /\ okm m4). { rewrite E4. cbn. destruct L13 as [A [B [_ D]]]. repeat split; try assumption; apply D. }
+    destruct C4 as [C4 [A4 O4]].
+    assert (R4 : ready m4). { destruct R as [Ra Rb]. split; [rewrite C4; exact Ra|rewrite C4, A4; exact Rb]. }
+    assert (FAIL4 : forall e m', prog_le m4 m' -> plain_err e -> Q (inr e) d m').
+    { intros e m' [M1 [M2 [M3 M4]]] Pe. apply HQ; [congruence|congruence|exact M4|intros []|]. intros e0 E0. injection E0 as <-. exact Pe. }
+    split; [apply FAIL4; [apply prog_le_refl, O4|repeat split; discriminate]|].
+    apply seq_plain with (E := plain_err) (want := [ISync]); [apply plain_spec_of, syncw_plain|exact O4|exact R4| |exact FAIL4].
+    intros [] m5 L5 V5. apply seq_plain with (E := plain_err) (want := [IBases]); [apply plain_spec_of, bases_plain|apply L5|eapply prog_le_ready; eassumption| |].
+    2:{ intros e m' L Pe. apply FAIL4; [eapply prog_le_trans; eassumption|exact Pe]. }
+    intros [] m6 L6 V6. pose proof (prog_le_trans _ _ _ L5 L6) as L56.
+    apply seq_plain with (E := plain_err) (want := []); [apply plain_spec_of, retention_plain|apply L56|eapply prog_le_ready; eassumption| |].
+    2:{ intros e m' L Pe. apply FAIL4; [eapply prog_le_trans; eassumption|exact Pe]. }
+    intros [] m7 L7 _. pose proof (prog_le_trans _ _ _ L56 L7) as L57.
+    apply (plain_spec_of x _ plain_err [] _ (retention_plain s6_Register_TxModulation)); [apply L57|eapply prog_le_ready; eassumption|].
+    intros r m8 L8 _ E8. pose proof (prog_le_trans _ _ _ L57 L8) as L58. destruct L58 as [N1 [N2 [N3 N4]]].
+    apply HQ; [rewrite N1; exact C4|rewrite N2; exact A4|exact N4| |exact E8].
+    intros _ i Hi. unfold it_init126 in Hi. apply in_app_or in Hi. destruct Hi as [Hi|Hi]; [|apply in_app_or in Hi; destruct Hi as [Hi|Hi]].
+    - cbn [In] in Hi. destruct Hi as [<-|[<-|[<-|[]]]].
+      + apply N3. rewrite E4. reflexivity.
+      + apply L8, L7, L6, V5. left; reflexivity.
+      + apply L8, L7, V6. left; reflexivity.
+    - apply N3. rewrite E4. destruct dc; [|destruct Hi]. destruct Hi as [<-|[]]. cbn. apply L3, L2, V1. left; reflexivity.
+    - apply N3. rewrite E4. destruct tc; [|destruct Hi]. destruct Hi as [<-|[]]. cbn. apply V3. left; reflexivity.
+  Qed.
+
+  (* ---- reading the interrupt status *)
+  Definition irq_effect (m : mon) (flags : N) : mon :=
+    let has b := negb (N.land flags b =? 0)%N in
+    match cm m with
+    | CTx => if has 0x201%N then with_mode m CStby else m
+    | CRx1 | CDuty => if has 0x202%N then with_mode m CStby else m
+    | CCad => if has 0x080%N then with_mode m CStby else m
+    | _ => m
+    end.
+  Lemma irq_effect_facts m f : okm m -> let m' := irq_effect m f in
+    okm m' /\ le_valid m m' /\ awake m' = awake m /\ (cm m' = cm m \/ cm m' = CStby).
+  Proof.
+    intros O. unfold irq_effect. destruct (cm m) eqn:E; cbv zeta;
+      try match goal with |- context [if ?b then _ else _] => destruct b end;
+      (split; [exact O|]); (split; [first [apply le_refl|apply le_with_mode]|]); (split; [reflexivity|]);
+      first [left; cbn; congruence|right; reflexivity].
+  Qed.
+  Lemma segs_match_status b ts got : segs_match [W b; R 1; R 2] ts got -> exists x1 y1 y2, ts = [TW b; TR [x1]; TR [y1; y2]] /\ got = [x1; y1; y2].
+  Proof.
+    intros H. inversion H as [|b0 r0 ts0 got0 H1|]; subst. inversion H1 as [| |n1 r1 ts1 got1 bs1 Hl1 H2]; subst.
+    inversion H2 as [| |n2 r2 ts2 got2 bs2 Hl2 H3]; subst. inversion H3; subst.
+    destruct bs1 as [|x1 [|? ?]]; try discriminate Hl1. destruct bs2 as [|y1 [|y2 [|? ?]]]; try discriminate Hl2.
+    exists x1, y1, y2. split; reflexivity.
+  Qed.
+
+  Lemma clear_step (clear : bool) (Q : unit + rerr -> drv -> mon -> Prop) d m : cm m <> CSleep ->
+    (forall r, r = inl tt \/ r = inr ESpi \/ r = inr EBusy -> Q r d m) -> wp x (if clear then clear_irq_126 else Ret tt) Q d m.
+  Proof.
+    intros NS HQ. destruct clear; [|cbn [wp]; apply HQ; left; reflexivity]. unfold clear_irq_126, spi_write, act1, iv. cbn [wp].
+    split; [apply HQ; right; left; reflexivity|]. intros ts got Hm. apply segs_match_w1 in Hm. destruct Hm as [-> ->]. rewrite ev_w1 by discriminate.
+    rewrite spi126_readonly; [|exact NS|reflexivity|reflexivity]. change (spi126_cmd x m [s6_OpCode_ClrIrqStatus; 255%N; 255%N] []) with m.
+    split; [apply HQ; right; right; reflexivity|apply HQ; left; reflexivity].
+  Qed.
+  Lemma implicit_plain : plainP x pin_only [] [] handle_implicit_header_mode.
+  Proof. plain. Qed.
+
+  Lemma procirq_ok g : forall dm clear (Q : irqstate + rerr -> drv -> mon -> Prop) d m, okm m -> cm m <> CSleep ->
+      (cm m = CDuty -> is_single dm = false) ->
+      (forall r m', okm m' -> le_valid m m' -> (cm m' = cm m \/ cm m' = CStby) ->
+                    (forall c, r = inl (IrqDone c) -> oneshot dm = true -> Some (cm m) = active_of dm -> cm m' = CStby) ->
+                    (r = inl IrqPreamble -> exists rm, dm = MRx rm) ->
+                    (forall e, r = inr e -> e <> ECancelled) -> Q r d m') ->
+      wp x (k_procirq (kind126 g) dm clear) Q d m.
+  Proof.
+    intros dm clear Q d m O NS SD HQ. cbn [k_procirq kind126]. unfold process_irq_126.
+    match goal with |- wp _ (bind _ ?F) _ _ _ => remember F as F0 eqn:EF end.
+    (* whatever the status read gives, the rest (clear, implicit-header workaround) leaves the monitor where it is *)
+    assert (REST : forall (st : irqstate + rerr) m1, okm m1 -> le_valid m m1 -> (cm m1 = cm m \/ cm m1 = CStby) ->
+              (forall c, st = inl (IrqDone c) -> oneshot dm = true -> Some (cm m) = active_of dm -> cm m1 = CStby) ->
+              (st = inl IrqPreamble -> exists rm, dm = MRx rm) -> (forall e, st = inr e -> e <> ECancelled) ->
+              wp x (F0 st) Q d m1).
+    { subst F0. intros st m1 O1 L1 M1 D1 P1 E1. cbv beta.
+      assert (NS1 : cm m1 <> CSleep) by (destruct M1 as [-> | ->]; [exact NS|discriminate]).
+      assert (OUT : forall r : irqstate + rerr, (r = st \/ r = inr ESpi \/ r = inr EBusy) -> forall m2, prog_le m1 m2 -> Q r d m2).
+      { intros r Hr m2 [A1 [A2 [A3 A4]]]. apply HQ; [exact A4|intros i Hi; apply A3, L1, Hi|rewrite A1; exact M1| | |].
+        - intros c Ec Os Ac. rewrite A1. destruct Hr as [-> |[-> | ->]]; try discriminate Ec. apply (D1 c Ec Os Ac).
+        - intros Ep. destruct Hr as [-> |[-> | ->]]; try discriminate Ep. apply P1, Ep.
+        - intros e Ee. destruct Hr as [-> |[-> | ->]]; [apply E1, Ee|injection Ee as <-; discriminate|injection Ee as <-; discriminate]. }
+      apply wp_bind. apply clear_step; [exact NS1|]. intros r Hr. destruct Hr as [-> |[-> | ->]];
+        try (apply OUT; [right; tauto|apply prog_le_refl, O1]).
+      apply wp_bind.
+      assert (FIN : forall m2, prog_le m1 m2 -> wp x (match st with inl v => Ret v | inr e => Fail e end) Q d m2).
+      { intros m2 L2. destruct st as [v|e]; cbn [wp]; apply OUT; try (left; reflexivity); exact L2. }
+      destruct (irq_of dm) eqn:EI; try (cbn [wp]; apply FIN, prog_le_refl, O1).
+      destruct dm as [| | |[n| |a b]| |]; try (cbn [wp]; apply FIN, prog_le_refl, O1).
+      destruct st as [[| |c]|e]; try (cbn [wp]; apply FIN, prog_le_refl, O1).
+      (* single reception completed: the implicit-header workaround writes registers -- the chip is in RX or standby *)
+      assert (R1 : ready m1).
+      { split; [exact NS1|]. intros E. exfalso. destruct M1 as [M|M]; [|congruence]. rewrite M in E. specialize (SD E). discriminate SD. }
+      apply (plain_spec_of x _ pin_only [] _ implicit_plain); [exact O1|exact R1|]. intros r m2 L2 _ E2. destruct r as [[]|e].
+      - apply FIN. exact L2.
+      - apply OUT; [|exact L2]. destruct (E2 e eq_refl) as [-> | ->]; [right; left|right; right]; reflexivity. }
+    clear EF. apply wp_bind. unfold get_irq_state_126, spi_read_status, act1, iv. cbn [bind attempt wp].
+    split.
+    { apply REST; [exact O|apply le_refl|left; reflexivity|intros c E; discriminate E|intros E; discriminate E|intros e E; injection E as <-; discriminate]. }
+    intros ts got Hm. apply segs_match_status in Hm. destruct Hm as [x1 [y1 [y2 [-> ->]]]].
+    assert (EV : mon_event x m (TSpi [TW [s6_OpCode_GetIrqStatus]; TR [x1]; TR [y1; y2]]) = irq_effect m (y1 * 256 + y2)%N).
+    { cbn [mon_event seg_written seg_read app x_fam x126]. rewrite spi126_readonly; [reflexivity|exact NS|reflexivity|reflexivity]. }
+    rewrite EV. destruct (irq_effect_facts m (y1 * 256 + y2)%N O) as [O1 [L1 [A1 M1]]].
+    split.
+    { apply REST; [exact O1|exact L1|exact M1|intros c E; discriminate E|intros E; discriminate E|intros e E; injection E as <-; discriminate]. }
+    change (mon_event x (irq_effect m (y1 * 256 + y2)%N) (TIv IvBusy)) with (irq_effect m (y1 * 256 + y2)%N).
+    cbn [bind nthN nth skipn].
+    set (flags := (y1 * 256 + y2)%N) in *.
+    assert (DONE_TX : is_set s6_IrqMask_TxDone flags = true -> cm m = CTx -> cm (irq_effect m flags) = CStby).
+    { intros S E. unfold irq_effect. rewrite E. rewrite (is_set_land _ _ 0x201%N 0%N S); reflexivity. }
+    assert (DONE_RX : is_set s6_IrqMask_RxDone flags = true -> cm m = CRx1 \/ cm m = CDuty -> cm (irq_effect m flags) = CStby).
+    { intros S [E|E]; unfold irq_effect; rewrite E; rewrite (is_set_land _ _ 0x202%N 1%N S); reflexivity. }
+    assert (DONE_CAD : is_set s6_IrqMask_CADDone flags = true -> cm m = CCad -> cm (irq_effect m flags) = CStby).
+    { intros S E. unfold irq_effect. rewrite E. rewrite (is_set_land _ _ 0x080%N 7%N S); reflexivity. }
+    destruct dm as [| | |rm| |]; cbn [irq_of];
+      repeat match goal with |- context [is_set ?a flags] => destruct (is_set a flags) eqn:? end; cbn [orb bind attempt wp];
+      apply REST; try exact O1; try exact L1; try exact M1;
+      try (intros c E; discriminate E); try (intros E; discriminate E); try (intros e E; injection E as <-; discriminate);
+      try (intros E; eexists; reflexivity).
+    - intros c _ _ Ac. apply DONE_TX; [first [reflexivity|assumption]|]. cbn in Ac. injection Ac as ->. reflexivity.
+    - intros c _ Os Ac. apply DONE_RX; [first [reflexivity|assumption]|]. destruct rm as [n| |a b]; cbn in Ac, Os; try discriminate Os; injection Ac as ->; [left|right]; reflexivity.
+    - intros c _ _ Ac. apply DONE_CAD; [first [reflexivity|assumption]|]. cbn in Ac. injection Ac as ->. reflexivity.
+    - intros c _ _ Ac. apply DONE_CAD; [first [reflexivity|assumption]|]. cbn in Ac. injection Ac as ->. reflexivity.
+  Qed.
+
+  (* ---- what the prepared states rely on *)
+  Definition kind126_ok g (HD : g_dcdc g = dc) (HT : tc = match g_tcxo g with Some _ => true | None => false end) (LO : True) : kind_ok x (kind126 g).
+  Proof.
+    refine {| it_init := it_init126; it_power := [ITxParams; IPaConfig]; it_mod := [IMod]; it_pkt := [IPkt]; it_chan := [IFreq]; it_irq := [IIrq];
+              it_payload := []; it_sync := [ISync]; it_cad := it_cad126 |}.
+    - intros sw. apply init_ok; assumption.
+    - intros p md istx. apply plain_spec_of, power_plain.
+    - intros m. apply plain_spec_of, irq_plain.
+    - intros f. apply plain_spec_of, calimg_plain.
+    - intros md. apply plain_spec_of, mod_plain.
+    - intros pk. apply plain_spec_of, pkt_plain.
+    - intros f. apply plain_spec_of, chan_plain.
+    - intros p. apply plain_spec_of, payload_plain.
+    - intros sw. apply plain_spec_of, sync_plain.
+    - intros pk n. apply plain_spec_of, rxpayload_plain.
+    - apply plain_spec_of, status_plain.
+    - apply ensure_ok.
+    - apply standby_ok.
+    - apply sleep_ok.
+    - apply reset_ok.
+    - apply tx_ok.
+    - apply rx_ok.
+    - apply cad_ok.
+    - apply procirq_ok.
+    - (* cover_tx *) intros m V. apply forallb_forall. intros i Hi. apply V. unfold need, no_listen in Hi. cbn [x_fam x126 x_dcdc x_tcxo x_listen] in Hi.
+      unfold it_init126. destruct dc, tc; cbn [app In] in Hi |- *; tauto.
+    - (* cover_rx *) intros m V. apply forallb_forall. intros i Hi. apply V. unfold need, no_listen in Hi. cbn [x_fam x126 x_dcdc x_tcxo x_listen] in Hi.
+      unfold it_init126. destruct dc, tc; cbn [app In] in Hi |- *; tauto.
+    - (* cover_cad *) intros m V i Hi. apply V. unfold it_cad126 in Hi. unfold it_init126. destruct dc, tc; cbn [app In] in Hi |- *; tauto.
+    - (* cover_listen *) intros m LI V. apply forallb_forall. intros i Hi. apply V. unfold need in Hi. cbn [x_fam x126 x_dcdc x_tcxo x_listen] in Hi, LI.
+      rewrite LI in Hi. unfold it_init126. destruct dc, tc; cbn [app In] in Hi |- *; tauto.
+  Defined.
 End K126.
